@@ -1,3 +1,4 @@
+import TantivyModel.Gen.MergeGuards
 /-!
 # Merge model (C04)
 
@@ -357,5 +358,228 @@ def publishedUids (st : State) : List Nat := (st.published.map liveUids).flatten
 /-- what a commit at `opstamp` would publish -/
 def pendingUids (st : State) (opstamp : Nat) : List Nat :=
   ((st.uncommitted ++ st.committed).map fun e => liveUids (advance st.queue e opstamp)).flatten
+
+/-! ## Part 3 — the writer as an event machine (all interleavings of one merge with the rest)
+
+`Sys` adds to `State` what the real writer keeps besides the registers: the merge in flight, the
+stamper and the segment-id source. Events are the calls / internal steps that can interleave with
+a merge: a worker flushing a segment, `delete_term`, `commit`, `rollback`,
+`delete_all_documents`, the start of a merge (`start_merge`: sources looked up in the register
+that holds ALL ids, target opstamp by `mergeTarget`, result computed from the entries as they
+are now) and its end (`end_merge`). One merge is in flight at a time (a second `startMerge` is
+ignored). The stamper never hands out an opstamp twice (after `rollback` the real stamper restarts
+at the committed opstamp: the first operation of the new writer then shares the commit's opstamp —
+C02's recorded finding — which is outside this machine). Explicit merges of uncommitted segments
+(target = commit opstamp, the recorded finding of this property) are not an event: uncommitted
+sources always get the policy rule. -/
+
+structure Sys where
+  st : State
+  running : Option Running
+  /-- next opstamp -/
+  stamp : Nat
+  /-- next segment id -/
+  nextId : Nat
+
+inductive Ev
+  | addSeg (docs : List DocRec)
+  | delete (key : Nat)
+  | commit
+  | rollback
+  | deleteAll
+  | startMerge (ids : List Nat)
+  | endMerge
+
+def inSources (ids : List Nat) (e : Entry) : Bool := ids.contains e.segId
+
+def Sys.init : Sys :=
+  { st := { queue := [], committed := [], uncommitted := [], committedOpstamp := 0, published := [],
+            epoch := 0 },
+    running := none, stamp := 1, nextId := 0 }
+
+def Sys.step (s : Sys) : Ev → Sys
+  | .addSeg docs =>
+    let e : Entry := { segId := s.nextId, docs := docs, alive := List.replicate docs.length true,
+                       cursor := s.st.queue.length }
+    { s with st := { s.st with uncommitted := s.st.uncommitted ++ [e] }, nextId := s.nextId + 1 }
+  | .delete key => { s with st := pushDelete s.st ⟨s.stamp, key⟩, stamp := s.stamp + 1 }
+  | .commit => { s with st := commit s.st s.stamp, stamp := s.stamp + 1 }
+  | .rollback => { s with st := rollback s.st }
+  | .deleteAll => { s with st := deleteAll s.st }
+  | .startMerge ids =>
+    match s.running with
+    | some _ => s
+    | none =>
+      if ids = [] then s
+      else if containsAll s.st.uncommitted ids then
+        { s with
+          running := some ⟨ids, mergeEntries s.st.queue (s.st.uncommitted.filter (inSources ids))
+            (mergeTarget false s.st.committedOpstamp s.stamp) s.nextId, s.st.epoch⟩,
+          stamp := s.stamp + 1, nextId := s.nextId + 1 }
+      else if containsAll s.st.committed ids then
+        { s with
+          running := some ⟨ids, mergeEntries s.st.queue (s.st.committed.filter (inSources ids))
+            (mergeTarget true s.st.committedOpstamp s.stamp) s.nextId, s.st.epoch⟩,
+          nextId := s.nextId + 1 }
+      else s
+  | .endMerge =>
+    match s.running with
+    | none => s
+    | some r => { s with st := endMerge s.st r, running := none }
+
+def Sys.run (s : Sys) (evs : List Ev) : Sys := evs.foldl Sys.step s
+
+/-- SPEC: the sequential replay — what the index contains if merges did not exist -/
+structure Abs where
+  /-- documents a searcher sees -/
+  pub : List DocRec
+  /-- documents the next commit will publish -/
+  pend : List DocRec
+
+def Abs.init : Abs := { pub := [], pend := [] }
+
+def Abs.step (a : Abs) : Ev → Abs
+  | .addSeg docs => { a with pend := a.pend ++ docs }
+  | .delete key => { a with pend := a.pend.filter fun d => !d.keys.contains key }
+  | .commit => { a with pub := a.pend }
+  | .rollback => { a with pend := a.pub }
+  | .deleteAll => { a with pend := [] }
+  | .startMerge _ => a
+  | .endMerge => a
+
+def Abs.run (a : Abs) (evs : List Ev) : Abs := evs.foldl Abs.step a
+
+def liveDocsOf (e : Entry) : List DocRec := liveDocs e.docs e.alive
+
+/-- live docs of an entry once every queued delete from its cursor on is applied -/
+def docsAll (q : List DelOp) (e : Entry) : List DocRec :=
+  (liveDocsOf e).filter fun d => !(q.drop e.cursor).any fun op => hits op d
+
+def pubDocs (st : State) : List DocRec := (st.published.map liveDocsOf).flatten
+def pendDocs (st : State) : List DocRec :=
+  ((st.uncommitted ++ st.committed).map (docsAll st.queue)).flatten
+
+/-! ## Part 4 — behaviour selected by the guards extracted from the source (`Gen/MergeGuards`)
+
+The driver executes these `…G` versions and the all-traces theorem is stated about them: while the
+source has the mirrored shape (every guard = 1) they are the definitions above (`Proofs`:
+`stepG_eq`); if a guard flips, the executable model follows the changed code (stale cursor, one
+target for both registers, first-source-only staleness test, no reconciliation), the equality
+lemmas stop compiling and the theorem is reported broken. -/
+
+def mergeEntriesG (q : List DelOp) (srcs : List Entry) (target newId : Nat) : Option Entry :=
+  if Gen.MERGE_CURSOR_AFTER_ADVANCE = 1 then mergeEntries q srcs target newId
+  else mergeEntriesStale q srcs target newId
+
+def mergeTargetG (sourcesCommitted : Bool) (commitOpstamp currentStamp : Nat) : Nat :=
+  if Gen.MERGE_TARGET_BY_REGISTER = 1 then mergeTarget sourcesCommitted commitOpstamp currentStamp
+  else currentStamp
+
+/-- a weaker staleness test (what the guard-off branch executes): only the FIRST source is
+looked up in the register -/
+def containsFirst (reg : List Entry) (ids : List Nat) : Bool :=
+  match ids with
+  | [] => true
+  | i :: _ => reg.any fun e => e.segId == i
+
+def containsAllG (reg : List Entry) (ids : List Nat) : Bool :=
+  if Gen.END_MERGE_REQUIRES_ALL_SOURCES = 1 then containsAll reg ids else containsFirst reg ids
+
+/-- `end_merge` with the first-source-only staleness test (counterexample only) -/
+def endMergeFirstOnly (st : State) (r : Running) : State :=
+  if r.epoch ≠ st.epoch then st
+  else
+    let m := r.merged.map (reconcile st)
+    if containsFirst st.uncommitted r.sources then
+      { st with uncommitted := swapIn st.uncommitted r.sources m }
+    else if containsFirst st.committed r.sources then
+      let c := swapIn st.committed r.sources m
+      { st with committed := c, published := c }
+    else st
+
+def reconcileG (st : State) (m : Entry) : Entry :=
+  if Gen.END_MERGE_RECONCILES = 1 then reconcile st m else m
+
+def endMergeG (st : State) (r : Running) : State :=
+  if r.epoch ≠ st.epoch then st
+  else
+    let m := r.merged.map (reconcileG st)
+    if containsAllG st.uncommitted r.sources then
+      { st with uncommitted := swapIn st.uncommitted r.sources m }
+    else if containsAllG st.committed r.sources then
+      let c := swapIn st.committed r.sources m
+      { st with committed := c, published := c }
+    else st
+
+def Sys.stepG (s : Sys) : Ev → Sys
+  | .startMerge ids =>
+    match s.running with
+    | some _ => s
+    | none =>
+      if ids = [] then s
+      else if containsAll s.st.uncommitted ids then
+        { s with
+          running := some ⟨ids, mergeEntriesG s.st.queue (s.st.uncommitted.filter (inSources ids))
+            (mergeTargetG false s.st.committedOpstamp s.stamp) s.nextId, s.st.epoch⟩,
+          stamp := s.stamp + 1, nextId := s.nextId + 1 }
+      else if containsAll s.st.committed ids then
+        { s with
+          running := some ⟨ids, mergeEntriesG s.st.queue (s.st.committed.filter (inSources ids))
+            (mergeTargetG true s.st.committedOpstamp s.stamp) s.nextId, s.st.epoch⟩,
+          nextId := s.nextId + 1 }
+      else s
+  | .endMerge =>
+    match s.running with
+    | none => s
+    | some r => { s with st := endMergeG s.st r, running := none }
+  | ev => s.step ev
+
+def Sys.runG (s : Sys) (evs : List Ev) : Sys := evs.foldl Sys.stepG s
+
+/-! ## Part 5 — any number of merges in flight
+
+`SysM` keeps a LIST of running merges: `startMerge` is always allowed (an explicit
+`IndexWriter::merge` does not look at the merge inventory, so two merges may even share sources),
+`endMerge i` ends the i-th of them. Everything else is the single-merge machine run with no merge
+in flight (`view none`), so the two machines cannot drift apart. -/
+
+structure SysM where
+  st : State
+  running : List Running
+  stamp : Nat
+  nextId : Nat
+
+inductive EvM
+  | addSeg (docs : List DocRec)
+  | delete (key : Nat)
+  | commit
+  | rollback
+  | deleteAll
+  | startMerge (ids : List Nat)
+  | endMerge (i : Nat)
+
+def EvM.toEv : EvM → Ev
+  | .addSeg d => .addSeg d
+  | .delete k => .delete k
+  | .commit => .commit
+  | .rollback => .rollback
+  | .deleteAll => .deleteAll
+  | .startMerge ids => .startMerge ids
+  | .endMerge _ => .endMerge
+
+def SysM.view (s : SysM) (r : Option Running) : Sys := ⟨s.st, r, s.stamp, s.nextId⟩
+
+def SysM.init : SysM := ⟨Sys.init.st, [], Sys.init.stamp, Sys.init.nextId⟩
+
+def SysM.step (s : SysM) : EvM → SysM
+  | .endMerge i =>
+    match s.running[i]? with
+    | none => s
+    | some r => { s with st := endMergeG s.st r, running := s.running.eraseIdx i }
+  | ev =>
+    let s1 := (s.view none).stepG ev.toEv
+    { st := s1.st, running := s.running ++ s1.running.toList, stamp := s1.stamp, nextId := s1.nextId }
+
+def SysM.run (s : SysM) (evs : List EvM) : SysM := evs.foldl SysM.step s
 
 end TantivyModel.Merge
